@@ -372,6 +372,8 @@ fn exec_op(ctx: &mut Ctx, tok: &str) -> String {
             duart_string(bus.verif_duart())
         }
         "fs" => final_state(&mut ctx.dmd),
+        // annotation for the monitors: no effect
+        "X" => "-".into(),
         _ => panic!("unknown op '{}'", tok),
     }
 }
